@@ -525,6 +525,34 @@ def opPrintSpec (j : Json) : Json :=
               ("wf", toJson (Spec.Print.wfB chunks)),
               ("expected", match fill chunks values with | some e => toJson (String.ofList e) | none => Json.null)]
 
+/-! op `parse`: the text of a match part → the component trees of the parser model -/
+mutual
+partial def jsonOfNode : Match.Node → Json
+  | .term (.str v) => Json.mkObj [("k", "term"), ("t", "str"), ("v", toJson (String.ofList v))]
+  | .term (.num v) => Json.mkObj [("k", "term"), ("t", "num"), ("v", toJson (String.ofList v))]
+  | .term (.regex v) => Json.mkObj [("k", "term"), ("t", "regex"), ("v", toJson (String.ofList v))]
+  | .header v => Json.mkObj [("k", "header"), ("name", toJson (String.ofList v))]
+  | .variable v => Json.mkObj [("k", "var"), ("name", toJson (String.ofList v))]
+  | .reference v => Json.mkObj [("k", "ref"), ("name", toJson (String.ofList v))]
+  | .fn n as => Json.mkObj [("k", "fn"), ("name", toJson (String.ofList n)), ("args", Json.arr (jsonOfArgs as).toArray)]
+  | .eq op l r => Json.mkObj [("k", "eq"), ("op", match op with | .eq => "==" | .assign => "=" | .when_ => "->"),
+                              ("l", jsonOfNode l), ("r", jsonOfNode r)]
+partial def jsonOfArgs : Match.Args → List Json
+  | .nil => []
+  | .cons a rest => jsonOfNode a :: jsonOfArgs rest
+end
+
+def opParse (j : Json) : Json :=
+  let txt := getStr j "text"
+  if txt.contains '\\' then Json.mkObj [("unmodelled", "backslash in the match part")]
+  else
+    match Match.lex txt.toList with
+    | none => Json.mkObj [("rejected", "lex")]
+    | some ts =>
+      match Match.parseToks ts with
+      | none => Json.mkObj [("rejected", "parse"), ("ntokens", toJson ts.length)]
+      | some es => Json.mkObj [("tree", Json.arr (es.map jsonOfNode).toArray), ("ntokens", toJson ts.length)]
+
 def handle (line : String) : Json :=
   match Json.parse line with
   | .error e => Json.mkObj [("error", toJson s!"bad-json: {e}")]
@@ -545,6 +573,7 @@ def handle (line : String) : Json :=
     else if op == "headers" then opHeaders j
     else if op == "interp" then opInterp j
     else if op == "print" then opPrint j
+    else if op == "parse" then opParse j
     else if op == "printspec" then opPrintSpec j
     else Json.mkObj [("error", toJson s!"bad-op: {op}")]
 
